@@ -4,6 +4,7 @@ other loops abstracted soundly), shown failing for an abstract input (violation)
 import re
 from core.report import Rule
 from core.facts import FactsError
+from core.terms import strip
 from core.absexec import AbsExec, Adt, Tup, Ref, TOP, Frame, deref_value, store_through
 from core.sm9 import place_types
 from . import shared
@@ -53,6 +54,8 @@ class RangeDomain:
         self.F = F
         self.sites = {}       # (fn path, bb) -> {'kind', 'proved': n, 'unknown': n, 'fails': n, 'detail': ...}
         self.notes = []
+        self.panics = {}      # (fn path, bb) of a diverging call the abstract execution reached -> {root}
+        self.completed = set()   # roots whose abstract execution ran to the end
 
     # ------------------------------------------------------------ helpers
     def iv(self, ex, fr, operand, val):
@@ -258,6 +261,10 @@ class RangeDomain:
     def call(self, ex, fk, args, term, fr):
         n = fk.name
         d = fk.d
+        if fr is not None and (term.get("target") is None or d.startswith(PANIC_DEFS)):
+            for i, blk in enumerate(fr.body.blocks):
+                if blk["term"] is term:
+                    self.panics.setdefault((fr.body.path, i), set()).add(getattr(self, "root", None))
         a = [deref_value(ex, x) for x in args]
         # lossless / checked integer conversions keep the interval (`u128::from(x)`, `usize::try_from(d)`)
         if n in ("from", "into", "try_from", "try_into") and len(a) == 1 and d.startswith("core::convert::num"):
@@ -339,8 +346,20 @@ class RangeDomain:
             if isinstance(v.variant, tuple):
                 return Adt("core::ops::ControlFlow", ("?", v.variant[1], {0: "Some", 1: "None"}), list(v.fields))
             return Adt("core::ops::ControlFlow", "Continue" if v.variant == "Some" else "Break", list(v.fields))
+        if n in ("position", "rposition") and len(a) == 2 and isinstance(a[0], Iter):
+            # index of an element of a sequence of known length: None, or Some(i) with i below that length
+            L = len(a[0].items) - a[0].pos
+            if L <= 0:
+                return Adt("core::option::Option", "None", [])
+            return Adt("core::option::Option", ("?", ("position?", fr.body.path, term["span"].get("line")), {0: "None", 1: "Some"}), [self.mk(0, L - 1)])
+        if n in ("leading_zeros", "trailing_zeros", "count_ones", "count_zeros") and len(a) == 1 and not isinstance(a[0], int) and d.startswith("core::num"):
+            return Rng(0, 128 if "u128" in fk.i else 64 if ("u64" in fk.i or "usize" in fk.i) else 32 if "u32" in fk.i else 16 if "u16" in fk.i else 8 if "u8" in fk.i else 128)
         if n == "leading_zeros" and len(a) == 1 and isinstance(a[0], int):
             return (128 if "u128" in fk.i else 64 if "u64" in fk.i else 32) - a[0].bit_length()
+        if n == "collect" and len(a) == 1 and isinstance(a[0], Iter):
+            return Tup([TOP if x is OPAQUE else x for x in a[0].items[a[0].pos:]])
+        if n == "len" and len(a) == 1 and isinstance(a[0], Tup) and ("alloc::vec" in d or "slice" in d or "array" in d):
+            return len(a[0].items)
         if n == "len" and "slice" in d and len(a) == 1:
             L = self.slice_len(ex, fr, args[0], term, 0)
             return L if L is not None else Rng(0, 2 ** 63)
@@ -381,6 +400,30 @@ class RangeDomain:
                 return int(c["int"])
             if "bytes_hex" in c:
                 return Tup(list(bytes.fromhex(c["bytes_hex"])))
+        if "promoted" in op:
+            # `&CONST` promoted to a static: evaluate its (argument-free, literal) body once and hand out a reference to the value
+            key = (op.get("uneval_def"), op["promoted"])
+            cache = self.__dict__.setdefault("_promoted", {})
+            if key not in cache:
+                cache[key] = TOP
+                pb = self.F.promoted.get(key)
+                if pb is not None and len(pb.blocks) <= 4:
+                    try:
+                        sub = AbsExec(self.F, self, max_steps=2000, max_paths=4)
+                        rs = sub.run(pb, [])
+                        if len(rs) == 1:
+                            v = rs[0][0]
+                            if isinstance(v, Ref):
+                                v = deref_value(sub, v)
+                            if isinstance(v, (int, Rng)) and not isinstance(v, bool):
+                                cache[key] = v
+                    except Exception:
+                        pass
+            v = cache[key]
+            if v is not TOP and (op.get("ty") or "").startswith("&"):
+                hf = Frame(self.F.promoted[key], [])
+                hf.env[0] = v
+                return Ref(hf, 0)
         return TOP
 
 
@@ -682,6 +725,51 @@ def guarded_unwrap(repo, b, bb):
     return False
 
 
+def nonzero_inverse_unwrap(repo, b, bb):
+    """`x.inverse().unwrap()` where, on every path of the function that reaches the call, `x.is_zero()` (or `x == zero()`) was
+    answered false for that same value: a field inverse is None only for zero (R-INV-NONE for Fp; the towers' inverses are the
+    base inverse of the norm, assumed to share the contract), so the Option is Some."""
+    from core import paths
+    F = repo.F
+    t = b.blocks[bb]["term"]
+    if not t.get("args"):
+        return False
+    try:
+        tb = repo.tb(b)
+        v = strip(tb.operand(t["args"][0], bb, len(b.blocks[bb]["stmts"])))
+    except Exception:
+        return False
+    if v[0] != "call" or v[1].name != "inverse" or len(v[2]) != 1 or not (v[1].get("res_def") or v[1].d or "").startswith(("crate::", "<crate::")):
+        return False
+    x = strip(v[2][0])
+    try:
+        atoms = paths.collect_atoms(b, tb)
+    except Exception:
+        return False
+    if len(atoms) > 9:
+        return False
+
+    def nonzero(asg):
+        for a, val in asg.items():
+            if a[0] == "bool" and isinstance(a[1], tuple) and a[1][0] == "call" and a[1][1].name == "is_zero" and len(a[1][2]) == 1 and strip(a[1][2][0]) == x:
+                return val == 0
+            if a[0] == "ord":
+                for p, q in ((a[1], a[2]), (a[2], a[1])):
+                    q = strip(q)
+                    if strip(p) == x and q[0] == "call" and not q[2] and q[1].name == "zero":
+                        return val != "E"
+        return False
+    reached = False
+    for asg in paths.enumerate_assignments(atoms):
+        res = paths.simulate(b, tb, paths.Evaluator(asg))
+        if bb not in res.blocks:
+            continue
+        reached = True
+        if not nonzero(asg):
+            return False
+    return reached
+
+
 def rule_nopanic_core(prop, repo_rel, entries, cv_factory):
     """No panic site in the arithmetic reached from the given entry points (release MIR): every bounds / overflow / division
     assertion is discharged by interval analysis, and there is no unwrap / expect / panic! outside the conversion layer
@@ -774,6 +862,9 @@ def rule_nopanic_core(prop, repo_rel, entries, cv_factory):
         if (t.get("fn") or {}).get("name") in ("unwrap", "expect") and lossless_conversion_unwrap(b, bb):
             R.ok(sample={"site": loc_of(b, bb), "fn": d, "accepted_because": "integer conversion whose source range is inside the destination range on this target: always Ok"})
             continue
+        if not is_const_init and (t.get("fn") or {}).get("name") in ("unwrap", "expect") and nonzero_inverse_unwrap(repo, b, bb):
+            R.ok(sample={"site": loc_of(b, bb), "fn": d, "accepted_because": "inverse of a value that tested non-zero on every path to the call"})
+            continue
         if not is_const_init and (t.get("fn") or {}).get("name") in ("unwrap", "expect") and guarded_unwrap(repo, b, bb):
             R.ok(sample={"site": loc_of(b, bb), "fn": d, "accepted_because": "dominated by the true edge of is_some()/is_ok() on the same value"})
             continue
@@ -841,11 +932,61 @@ def rule_profile_diff(prop, ctx_repo_dev, repo_rel, ls_factory):
                 unk = any(o.unknown for o in ex.values())
                 R.check(not unk, key, "debug_assert! in %s could not be decided over the abstract input domain" % p, loc_of(b, bb), p, sample={"site": loc_of(b, bb), "never_fires": True})
         else:
+            dead, how = debug_assert_unreachable(repo, b, bb)
+            if dead:
+                R.ok(sample={"site": loc_of(b, bb), "fn": p, "never_fires": how})
+                continue
             R.violation(key, "unclassified debug_assert! in %s: neither decidable over an abstract input domain nor a listed numerical self-check" % p, loc_of(b, bb), p)
     for p in ASSUMED_DEBUG_ASSERTS:
         if not any(s[1] == p for s in dbg):
             R.note("stale assumption: no debug_assert! in %s any more" % p)
     return R.finish()
+
+
+def debug_assert_unreachable(repo, b, bb):
+    """Can the panic of a debug_assert! in a function that is not byte-level be reached?  Two finite deciders, either suffices:
+    (i) the byte machine with opaque arguments — every opaque predicate gets one answer per path, helpers of the same file are
+    analysed in place — produces no path into the panic (`debug_assert!(!self.is_zero())` below `if self.z.is_zero() { return }`);
+    (ii) the interval execution of the function from unknown inputs never reaches the panic call (`debug_assert!(d < 10)` on a
+    decimal digit, `limb < 4 && bit < 64` after `n < 256`).  → (decided unreachable, how)"""
+    F = repo.F
+    p = b.rec["path"]
+    # (ii) intervals
+    try:
+        dom = RangeDomain(F)
+        from .roles import int_helper_paths
+        int_fns = int_helper_paths(F)
+        run_top(F, dom, b, lambda d: d in int_fns)
+        if p in dom.completed and (p, bb) not in dom.panics:
+            return True, "interval execution from unknown inputs never reaches the panic"
+    except Exception:
+        pass
+    # (i) opaque predicates, one answer per path
+    try:
+        from core.bytex import Machine, T as BT, Ref as BRef
+        f = (b.rec.get("span") or {}).get("file")
+        pol = lambda cb: f is not None and (cb.rec.get("span") or {}).get("file") == f
+        ins = b.rec.get("inputs") or []
+        args, holders = [], []
+        for i, ty in enumerate(ins):
+            if ty.strip().startswith("&"):
+                holders.append(BT("arg", i + 1))
+                args.append(BRef(0, len(holders) - 1))
+            else:
+                args.append(BT("arg", i + 1))
+        insts = [i["inst"] for i in F.inst_by_def.get(p, [])] if b.rec.get("requires_mono") else [None]
+        if not insts:
+            return False, ""
+        for inst in insts[:4]:
+            outs = Machine(F, pol).run(b, list(args), holders=list(holders), inst=inst)
+            for o in outs:
+                if o.kind == "undecided":
+                    return False, ""
+                if o.kind == "panic" and o.site and o.site[0] == p and o.site[1] == bb:
+                    return False, ""
+        return True, "no consistent assignment of the function's opaque predicates leads into the panic"
+    except Exception:
+        return False, ""
 
 
 def bytes_discharge(repo, ls_factory, cache, b, bb, callers=None):
@@ -898,6 +1039,26 @@ def ordinal(body, bb, kind):
     return n
 
 
+def shape_value(F, ty, depth=0):
+    """an unknown value of the given type with the structure the type fixes: struct fields, array lengths, integer ranges"""
+    ty = (ty or "").strip()
+    r = ty_range(ty)
+    if r:
+        return Rng(*r)
+    if depth > 4:
+        return TOP
+    m = re.match(r"^\[(.+); (\d+)\]$", ty)
+    if m and int(m.group(2)) <= 64:
+        return Tup([shape_value(F, m.group(1), depth + 1) for _ in range(int(m.group(2)))])
+    m = re.match(r"^ark_ff::(?:biginteger::)?BigInt<(\d+)>$", ty)
+    if m and int(m.group(1)) <= 64:
+        return Adt("ark_ff::BigInt", "BigInt", [Tup([Rng(0, 2 ** 64 - 1) for _ in range(int(m.group(1)))])])
+    adt = F.adts.get(ty)
+    if adt and not adt.get("generic") and adt.get("kind") == "Struct" and len(adt.get("variants") or []) == 1:
+        return Adt(ty, adt["variants"][0]["name"], [shape_value(F, f.get("ty"), depth + 1) for f in adt["variants"][0].get("fields") or []])
+    return TOP
+
+
 def run_top(F, dom, b, inline):
     dom.root = b.rec["path"]
     dom._abstract_heads = set()      # loop abstractions are decided per analysed root
@@ -912,11 +1073,10 @@ def run_top(F, dom, b, inline):
         elif ty.strip().startswith("&"):
             hf = Frame(b, [])
             inner = ty.strip().lstrip("&").replace("mut ", "").strip()
-            rr = ty_range(inner)
-            hf.env[0] = Rng(*rr) if rr else TOP
+            hf.env[0] = shape_value(F, inner)
             args.append(Ref(hf, 0))
         else:
-            args.append(TOP)
+            args.append(shape_value(F, ty))
     if b.rec["kind"] == "Closure":
         # closures: (env, args…) as in the MIR signature
         n = b.arg_count
@@ -938,6 +1098,7 @@ def run_top(F, dom, b, inline):
                 ex.run(b, args)
         else:
             ex.run(b, args)
+        dom.completed.add(b.rec["path"])
     except FactsError as e:
         dom.notes.append("%s: %s" % (b.rec["path"], e))
 
@@ -989,11 +1150,10 @@ def rule_int_total(prop, repo, entries):
                 args.append(Rng(*r))
             elif ty.strip().startswith("&"):
                 hf = Frame(b, [])
-                rr = ty_range(ty.strip().lstrip("&").replace("mut ", "").strip())
-                hf.env[0] = Rng(*rr) if rr else TOP
+                hf.env[0] = shape_value(F, ty.strip().lstrip("&").replace("mut ", "").strip())
                 args.append(Ref(hf, 0))
             else:
-                args.append(TOP)
+                args.append(shape_value(F, ty))
         try:
             ex.run(b, args)
         except FactsError as e:
